@@ -37,7 +37,7 @@ Proof.
   assert (E : map B.stream_of ss = map frame (map B.msg_of ss)).
   { induction H as [|s t Hs Ht IH]; [reflexivity|]. cbn [map]. rewrite IH.
     destruct (built_framed s Hs) as (_ & _ & ->). reflexivity. }
-  rewrite E.
+  rewrite E. clear E.
   assert (L : Forall (fun m => len m <= 65535) (map B.msg_of ss)).
   { induction H as [|s t Hs Ht IH]; [constructor|]. cbn [map]. constructor; [apply (built_framed s Hs)|exact IH]. }
   destruct (framing_roundtrip _ L) as (_ & R). rewrite map_length in R. exact R.
